@@ -4,6 +4,8 @@ import (
 	"fmt"
 	"reflect"
 	"strings"
+	"unicode"
+	"unicode/utf8"
 
 	"github.com/kstenerud/go-concise-encoding/ce"
 	"github.com/kstenerud/go-concise-encoding/ce/events"
@@ -39,7 +41,9 @@ type C21Case struct {
 	Recase          []int         `json:"recase"` // per kept entry: 0 none, 1 upper, 2 lower, 3 mixed, 4 add underscores, 5 drop underscores
 }
 
-var c21Names = []string{"Name", "FirstName", "ID", "UserID", "HTTPServer", "Count", "Value", "Data", "Flag", "Items", "Inner", "A", "B"}
+var c21Names = []string{"Name", "FirstName", "ID", "UserID", "HTTPServer", "Count", "Value", "Data", "Flag", "Items", "Inner", "A", "B",
+	// non-ASCII upper-case initials (single hump: the snake-case form is simply the lower-case form)
+	"Überschrift", "Ärger", "Ñandu", "Éclair"}
 var c21Awkward = []string{"A1B", "X_y", "Go2Go", "V2", "Under_Score"}
 var c21TagNames = []string{"alpha", "beta_gamma", "Delta", "epsilonZeta", "eta9", "THETA"}
 var c21FieldTypes = []*gen.TypeSpec{{K: "int"}, {K: "string"}, {K: "bool"}, {K: "slice", Elem: &gen.TypeSpec{K: "uint8"}}, {K: "float64"}, {K: "uint16"},
@@ -132,19 +136,19 @@ func recaseKey(key string, mode int) string {
 	case 2:
 		return strings.ToLower(key)
 	case 3:
-		b := []byte(key)
-		for i := range b {
+		rs := []rune(key)
+		for i := range rs {
 			if i%2 == 0 {
-				b[i] = strings.ToUpper(string(b[i]))[0]
+				rs[i] = unicode.ToUpper(rs[i])
 			} else {
-				b[i] = strings.ToLower(string(b[i]))[0]
+				rs[i] = unicode.ToLower(rs[i])
 			}
 		}
-		return string(b)
+		return string(rs)
 	case 4:
 		var sb strings.Builder
 		for i, r := range key {
-			if i > 0 && i%2 == 0 {
+			if i > 0 && i%2 == 0 && utf8.RuneStart(key[i]) {
 				sb.WriteByte('_')
 			}
 			sb.WriteRune(r)
@@ -247,6 +251,10 @@ func (c *C21Case) config() (*configuration.Configuration, *iterModel) {
 		cfg.Iterator.DefaultFieldOmitBehavior = configuration.OmitFieldZero
 	case "empty":
 		cfg.Iterator.DefaultFieldOmitBehavior = configuration.OmitFieldEmpty
+	case "always":
+		// untagged fields are omitted; fields with their own omit_never / omit_empty / omit_zero tag
+		// follow their tag, also when they are promoted from an untagged embedded struct
+		cfg.Iterator.DefaultFieldOmitBehavior = configuration.OmitFieldAlways
 	default:
 		cfg.Iterator.DefaultFieldOmitBehavior = configuration.OmitFieldChooseDefault
 		m.DefaultOmit = "never" // "choose default" with no further default: nothing is omitted by the configuration
@@ -262,7 +270,7 @@ func init() {
 		Gen: func(t *rapid.T, ctx *Ctx) interface{} {
 			c := &C21Case{Format: rapid.SampledFrom([]string{"cbe", "cte"}).Draw(t, "format")}
 			c.Camel = rapid.Bool().Draw(t, "camel")
-			c.Omit = rapid.SampledFrom([]string{"empty", "never", "zero", "empty"}).Draw(t, "omit")
+			c.Omit = rapid.SampledFrom([]string{"empty", "never", "zero", "empty", "always"}).Draw(t, "omit")
 			c.CaseInsensitive = rapid.Bool().Draw(t, "ci")
 			if !c.Camel && !c.CaseInsensitive && findingOpen("S29-snake-case-names-not-matched") {
 				ctx.Stats.Exclude("S29-snake-case-names-not-matched")
